@@ -58,9 +58,12 @@ CHECKS = {
              "origin, opaque flag.",
         design_ref="DESIGN.md §5 C01, §11.3",
         note="partial: parse_url_impl<ada::url>, without and with a base, is modelled and proved equal to Spec.parse for "
-             "every input (and every base record with the invariants), under one side condition (no '/', '?', '\\\\' between a '[' and the next ']' behind the credentials - there "
-             "get_host_delimiter_location and the Standard's host state stop at different places and both fail later; "
-             "bracket_condition_plain: any input without '[' satisfies it; file URLs are free of it) and with "
+             "every input (and every base record with the invariants), under one side condition (Lemmas/Bracket.bracketOk: no '/', '?', '\\\\' between a '[' and the next ']' behind the credentials, "
+             "or the scheme is not special, or the host text starts with '[' - where get_host_delimiter_location and the Standard's "
+             "host state stop at different places, Lemmas/Bracket.lean proves that both host parsers fail (ipv6Parse_bytes, hostParse_over, "
+             "hostParse_unclosed), except for a special scheme with text in front of the '[', which is left to the correspondence run; "
+             "bracket_condition_plain: any input without '[' satisfies it; bracket_condition_not_special / parser_no_base_not_special: "
+             "no condition at all when the scheme is not special; file URLs are free of it) and with "
              "ada::idna::to_ascii as a parameter; aggregator_parser_no_base_partial - through C04.parse_agrees the default "
              "type's parser without a base leaves the layout (bytes and eight offsets) of Spec.parse's record, and "
              "aggregator_parser_with_base_partial the same with a base (C04.parse_agrees_with_base); parser_chain_partial - parse a base, "
